@@ -41,12 +41,13 @@ type GateEntry struct {
 }
 
 type Gates struct {
+	Slow    time.Duration // duration of a "slow" call
 	mu      sync.Mutex
 	policy  map[string][]string // per kind: queue of policies for the next occurrences (default pass)
 	Entries []*GateEntry
 }
 
-func NewGates() *Gates { return &Gates{policy: map[string][]string{}} }
+func NewGates() *Gates { return &Gates{policy: map[string][]string{}, Slow: 40 * time.Millisecond} }
 
 // Plan appends a policy for the next not yet planned occurrence of kind.
 func (g *Gates) Plan(kind, policy string) {
@@ -78,6 +79,9 @@ func (g *Gates) enter(kind string, ctx context.Context, h, v uint64, exact bool)
 	case "ctx": // a consumer that only ever waits on its context
 		<-ctx.Done()
 		g.leave(e, "ctx")
+	case "slow": // a consumer call that takes a while and does not look at its context at all
+		time.Sleep(g.Slow)
+		g.leave(e, "slow")
 	}
 }
 
@@ -94,7 +98,7 @@ func (g *Gates) Blocked() []*GateEntry {
 	defer g.mu.Unlock()
 	var out []*GateEntry
 	for _, e := range g.Entries {
-		if e.Released == "" {
+		if e.Released == "" && e.Policy != "slow" { // a slow call moves on by itself: it is busy, not blocked
 			out = append(out, e)
 		}
 	}
@@ -145,9 +149,10 @@ type Config struct {
 	BaseMs             int      `json:"base_ms"`                  // election timeout on view 0 for the real timer
 	FailCommitAt       []uint64 `json:"fail_commit_at,omitempty"` // heights whose commit callback returns an error
 	CommitteeFailFirst int      `json:"committee_fail_first,omitempty"`
-	AbsentAt           uint64   `json:"absent_at,omitempty"`          // the node is not in the committee of this height (it moves on by sync only)
-	SyncCtxPerCall     bool     `json:"sync_ctx_per_call,omitempty"`  // UpdateState gets a per-call context which the consumer cancels as soon as the call has returned
-	CommitHonoursCtx   bool     `json:"commit_honours_ctx,omitempty"` // the consumer's commit callback returns ctx.Err() when its context was cancelled while it ran
+	AbsentAt           uint64   `json:"absent_at,omitempty"`           // the node is not in the committee of this height (it moves on by sync only)
+	CommitteePlainErr  bool     `json:"committee_plain_err,omitempty"` // a failing committee lookup reports a plain error even when its context is cancelled
+	SyncCtxPerCall     bool     `json:"sync_ctx_per_call,omitempty"`   // UpdateState gets a per-call context which the consumer cancels as soon as the call has returned
+	CommitHonoursCtx   bool     `json:"commit_honours_ctx,omitempty"`  // the consumer's commit callback returns ctx.Err() when its context was cancelled while it ran
 }
 
 type Event struct {
@@ -274,7 +279,7 @@ func New(cfg Config) *H {
 	}
 	me := h.IDs[cfg.Me]
 	h.BU = fakes.NewBlockUtils(string(me))
-	h.Mem = &fakes.Membership{Me: me, Committee: h.committee, FailFirst: cfg.CommitteeFailFirst}
+	h.Mem = &fakes.Membership{Me: me, Committee: h.committee, FailFirst: cfg.CommitteeFailFirst, PlainErr: cfg.CommitteePlainErr}
 	h.Sto = fakes.NewRecStorage()
 	h.KM = &fakes.KeyManager{Reg: h.Reg, Me: me}
 	gate := func(kind string, ctx context.Context, height primitives.BlockHeight) {
